@@ -124,6 +124,7 @@ inductive Act (ρ : Type) where
   | sSend
   | fire (o : Nat)
   | stale (o : Nat)
+  | staleTok (o t : Nat)  -- any earlier batch's callback that raced with `Stop` (every token up to the last one set was armed once)
   | oTok (o : Nat)
   | oTFlush (o : Nat)
   | oDone (o : Nat)
@@ -202,6 +203,10 @@ def step {ρ : Type} (c : Cfg ρ) (s : St ρ) : Act ρ → Option (St ρ)
   | .stale o =>
     match Batcher.stale (s.ops o).b with
     | some t => some (setOp s o { s.ops o with tokens := (s.ops o).tokens ++ [t] })
+    | none => none
+  | .staleTok o t =>
+    match Batcher.stale (s.ops o).b with
+    | some l => if t ≤ l then some (setOp s o { s.ops o with tokens := (s.ops o).tokens ++ [t] }) else none
     | none => none
   | .oTok o =>
     match (s.ops o).pc, (s.ops o).tokens with
